@@ -2,6 +2,7 @@
 package c10
 
 import (
+	"encoding/base64"
 	"fmt"
 	"net"
 	"os"
@@ -302,6 +303,9 @@ func run(c Case) error {
 		{ProxyName: "by-https", ProxyType: "https", CustomDomains: []string{"by-https.test"}},
 		{ProxyName: "by-mux", ProxyType: "tcpmux", CustomDomains: []string{"by-mux.test"}, Multiplexer: "httpconnect"},
 		{ProxyName: "by-stcp", ProxyType: "stcp", Sk: "bsk"},
+		// routes of the bystander on the very domains the session under test uses, kept apart by routeByHTTPUser only
+		{ProxyName: "hby-shared", ProxyType: "http", CustomDomains: []string{"x-http.test"}, RouteByHTTPUser: "bob"},
+		{ProxyName: "by-muxshared", ProxyType: "tcpmux", CustomDomains: []string{"x-mux.test"}, Multiplexer: "httpconnect", RouteByHTTPUser: "bob"},
 	} {
 		resp, e := by.NewProxy(m, 5*time.Second)
 		if e != nil || resp.Error != "" {
@@ -331,6 +335,21 @@ func run(c Case) error {
 		cc.Close()
 		if e != nil || strings.TrimSpace(l2) != "BY:by-mux" {
 			return fmt.Errorf("%s: bystander's tcpmux tunnel answered %q (%v)", when, l2, e)
+		}
+		bob := "Basic " + base64.StdEncoding.EncodeToString([]byte("bob:x"))
+		st, body, e = fx.HTTPGet(s.Addr(fx.SlotVhostHTTP), "x-http.test", "/", map[string]string{"Authorization": bob}, 5*time.Second)
+		if e != nil || st != 200 || body != "BY:hby-shared" {
+			return fmt.Errorf("%s: bystander's http route for user bob on the domain it shares with the session under test answered %d %q (%v)", when, st, body, e)
+		}
+		st2, cc, br, e = fx.HTTPConnect(s.Addr(fx.SlotTCPMux), "x-mux.test", map[string]string{"Proxy-Authorization": bob}, 5*time.Second)
+		if e != nil || st2 != 200 {
+			return fmt.Errorf("%s: bystander's tcpmux route for user bob on the domain it shares with the session under test answered %d (%v)", when, st2, e)
+		}
+		_ = cc.SetReadDeadline(time.Now().Add(5 * time.Second))
+		l2, e = br.ReadString('\n')
+		cc.Close()
+		if e != nil || strings.TrimSpace(l2) != "BY:by-muxshared" {
+			return fmt.Errorf("%s: bystander's tcpmux tunnel for user bob on the shared domain answered %q (%v)", when, l2, e)
 		}
 		return nil
 	}
@@ -521,6 +540,11 @@ func run(c Case) error {
 		}
 		if c.Cycles >= 10 && cyc == 1 {
 			g1, f1 = settle() // after two warm-up cycles
+		}
+		if c.Cycles < 10 {
+			if e := bystanderOK(when); e != nil {
+				return e
+			}
 		}
 	}
 	if e := bystanderOK("after the cycles"); e != nil {
